@@ -35,6 +35,7 @@ import (
 //                        FairMQ state ("BINDING") for ever and refuses every transition; obeys TERM/INT
 //             resetstuck - a FairMQ device whose RESET DEVICE fails by staying in DEVICE READY (not ok); the
 //                        roll-back INIT TASK to READY works; otherwise like fmq
+//             slow     - a FairMQ device whose CONNECT step (in the middle of CONFIGURE) takes 12 s; otherwise like fmq
 
 type occLog struct {
 	mu sync.Mutex
@@ -92,10 +93,13 @@ func (s *occServer) GetState(ctx context.Context, _ *pb.GetStateRequest) (*pb.Ge
 }
 
 func (s *occServer) Transition(ctx context.Context, r *pb.TransitionRequest) (*pb.TransitionReply, error) {
+	if s.beh == "slow" && r.GetTransitionEvent() == "CONNECT" {
+		time.Sleep(12 * time.Second) // the step is under way: the state changes when it completes
+	}
 	s.mu.Lock()
 	defer s.mu.Unlock()
 	t, known := occTransitions[r.GetTransitionEvent()]
-	if s.beh == "fmq" || s.beh == "midstate" || s.beh == "resetstuck" {
+	if s.beh == "fmq" || s.beh == "midstate" || s.beh == "resetstuck" || s.beh == "slow" {
 		t, known = fmqTransitions[r.GetTransitionEvent()]
 	}
 	ok := known && (t[0] == "" || t[0] == s.state) && s.state != "INITIALIZING" && s.state != "BINDING"
@@ -161,7 +165,7 @@ func runFakeOcc(port int, logPath, beh, fifo string) int {
 	if beh == "stuck" {
 		srv.state = "INITIALIZING"
 	}
-	if beh == "fmq" || beh == "midstate" || beh == "resetstuck" {
+	if beh == "fmq" || beh == "midstate" || beh == "resetstuck" || beh == "slow" {
 		srv.state = "IDLE"
 	}
 	lis, err := net.Listen("tcp", fmt.Sprintf("127.0.0.1:%d", port))
